@@ -949,6 +949,12 @@ func (r *Runner) Run(ctx context.Context, node syntax.Node) error {
 	if _, ok := node.(*syntax.File); ok || r.exit.exiting {
 		r.trapCallback(ctx, r.callbackExit, "exit")
 	}
+	// Do not report success if the context was cancelled while running;
+	// commands interrupted by it may fail softly, such as a blocked "read"
+	// ending a "while read" loop as if the input had reached its end.
+	if r.exit.ok() {
+		r.exit.fatal(ctx.Err())
+	}
 	maps.Insert(r.Vars, r.writeEnv.Each)
 	// Return the first of: a fatal error, a non-fatal handler error, or the exit code.
 	if err := r.exit.err; err != nil {
